@@ -48,6 +48,27 @@ TIMES = [0.5, 2.0, 6.5, 9.0, 14.0, 25.0, 45.0]
 _EXC = st.sampled_from(["runtime", "runtime", "assert-empty", "value-empty", "timeout-empty"])
 
 
+def _near_completion(case, draw):
+    """(leaf, client, ordinal) of a request of a partner task that is issued about when the completed-by task of its element ends: a fault
+    there falls between the worker's last look at its executor and the request to complete the element - or None"""
+    options = []
+    for el in case["schedule"]:
+        cb = el.get("completed_by") if "parallel" in el else None
+        named = next((t for t in el.get("parallel", []) if t["name"] == cb), None)
+        if named is None or named["mode"] != "iterations":
+            continue
+        per_request = max(sum(g + sv for g, sv in q["wire"]) + q["pre"] + q["post"] for q in named["requests"])
+        t_end = ((named.get("warmup_iterations") or 0) + named["iterations"]) * per_request
+        for t in el["parallel"]:
+            if t is not named and not t.get("throughput"):
+                own = max(sum(g + sv for g, sv in q["wire"]) + q["pre"] + q["post"] for q in t["requests"])
+                options.append((t, max(0, int(t_end / own) + draw(st.integers(-1, 3)))))
+    if not options:
+        return None
+    t, ordinal = options[draw(st.integers(0, len(options) - 1))]
+    return t, draw(st.integers(0, t["clients"] - 1)), ordinal
+
+
 @st.composite
 def _case(draw):
     case = draw(gen_races.race_case(avoid_named_wrap=True, max_elements=3))
@@ -61,6 +82,10 @@ def _case(draw):
     leaf = leaves[draw(st.integers(0, len(leaves) - 1))]
     client = draw(st.integers(0, leaf["clients"] - 1))
     ordinal = draw(st.sampled_from([0, 0, 1, 2, 5]))
+    if kind in ("runner-raises", "param-source") and draw(st.integers(0, 2)) == 0:
+        near = _near_completion(case, draw)
+        if near:
+            leaf, client, ordinal = near
     case["on_error"] = "continue"
     fault = None
     force_api_keys = False
